@@ -22,8 +22,62 @@ pub fn prepare(base: &Xstate, src: &str, rec: bool) -> Option<Xstate> {
     }
 }
 
+/// a run long enough for the reverse log to hold far more than 2^16 records, then all the way back: the start is
+/// reached, one backward step per forward step (oracle only: the script would be tens of thousands of commands)
+fn long_rewind(ctx: &mut Ctx, base: &Xstate) {
+    let n = if ctx.thorough { 40000 } else { 12000 };
+    let src = format!("0 {} 0 do I + loop", n);
+    let mut xs = base.clone();
+    xs.intercept_stdout(true);
+    xs.set_recording_enabled(true);
+    if !matches!(crate::guarded(|| xs.compile(&src)), Some(Ok(()))) { return; }
+    let start = vmcanon::core_dump(&xs.verif_dump());
+    let mut steps = 0usize;
+    let mut mid = String::new();
+    while xs.is_running() && steps < 10 * n + 100 {
+        if crate::guarded(|| xs.next()).map(|r| r.is_err()).unwrap_or(true) { break; }
+        steps += 1;
+        if steps == 1000 { mid = vmcanon::core_dump(&xs.verif_dump()); }
+    }
+    let log = xs.verif_dump().reverse_log_len.unwrap_or(0);
+    ctx.progress(&format!("C02 long rewind of `{}`: {} steps forward, log {}", src, steps, log));
+    let mut back = 0usize;
+    let mut mid_ok = true;
+    while back < steps {
+        if crate::guarded(|| xs.rnext()).map(|r| r.is_err()).unwrap_or(true) { break; }
+        back += 1;
+        if steps - back == 1000 { mid_ok = vmcanon::core_dump(&xs.verif_dump()) == mid; }
+    }
+    let end = vmcanon::core_dump(&xs.verif_dump());
+    ctx.check(back == steps && end == start && mid_ok, || format!("C02 `{}`: {} steps forward (log of {} records), then as many backward", src, steps, log),
+        || format!("back at the start: {}", start), || format!("{} backward steps, state {}{}", back, end, if mid_ok { "" } else { " (and the state 1000 steps from the start was not restored on the way)" }));
+    ctx.tag("kind:long-rewind");
+}
+
+/// known finding [host-object-not-logged]: the words of the d2 plug-in (loaded by the `xeh` binary) change their canvas,
+/// a host object behind a `Cell::AnyRc`, in place and write no undo record: stepping back over them restores the
+/// interpreter's own state but not the canvas (same root as C03's [anyrc-shared])
+fn host_objects(ctx: &mut Ctx) {
+    let mut xs = Xstate::boot().unwrap();
+    if xeh::d2_plugin::load(&mut xs).is_err() { return; }
+    xs.intercept_stdout(true);
+    xs.set_recording_enabled(true);
+    let src = "2 3 d2-resize 7 d2-color! 1 1 d2-data!";
+    if !matches!(crate::guarded(|| xs.compile(src)), Some(Ok(()))) { return; }
+    let view = |xs: &Xstate| { let mut p = xs.clone(); let _ = p.eval("d2-width d2-height"); format!("{:?}x{:?}", p.get_data(1).map(crate::canon::cell), p.get_data(0).map(crate::canon::cell)) };
+    let before = view(&xs);
+    let mut n = 0;
+    while xs.is_running() && n < 50 { if crate::guarded(|| xs.next()).map(|r| r.is_err()).unwrap_or(true) { break; } n += 1; }
+    for _ in 0..n { let _ = crate::guarded(|| xs.rnext()); }
+    let after = view(&xs);
+    ctx.check(before == after, || format!("[host-object-not-logged] C02 `{}` stepped to the end and all the way back", src), || format!("canvas {}", before), || format!("canvas {}", after));
+    ctx.tag("kind:host-object");
+}
+
 pub fn run(ctx: &mut Ctx) {
     let base = Xstate::boot().unwrap();
+    host_objects(ctx);
+    long_rewind(ctx, &base);
     let cfg = GenCfg { endless: false, ..GenCfg::default() };
     let max_steps = if ctx.thorough { 120 } else { 60 };
     let mut n_done = 0;
@@ -75,9 +129,15 @@ pub fn run(ctx: &mut Ctx) {
             Some(xs) => xs,
             None => { ctx.tag("skipped:build-error"); continue; }
         };
+        // some programs run under a small stack limit: a push that the limit refuses is a failed step like any other —
+        // it leaves nothing in the log, and what came before can still be taken back
+        let stack_limit: Option<usize> = if ctx.rng.chance(12) { ctx.tag("kind:stack-limit"); Some(1 + ctx.rng.below(5)) } else { None };
+        if stack_limit.is_some() { xs.set_stack_limit(stack_limit).unwrap(); }
+        // recording is asserted again in the middle (a host that makes sure it is on): that is not a restart
+        let reassert_at: Option<usize> = if !meta_prefix && ctx.rng.chance(8) { ctx.tag("kind:recording-asserted-again"); Some(1 + ctx.rng.below(max_steps / 2)) } else { None };
         n_done += 1;
         for t in tags.iter() { ctx.tag(&format!("prog:{}", t)); }
-        let setup = vmcanon::setup_str(&xs, (Some(INSN_LIMIT), None, None));
+        let setup = vmcanon::setup_str(&xs, (Some(INSN_LIMIT), stack_limit, None));
         // history of clean dumps: hist[i] = core dump after i successful steps
         let d0 = xs.verif_dump();
         let mut hist: Vec<String> = vec![vmcanon::core_dump(&d0)];
@@ -96,6 +156,12 @@ pub fn run(ctx: &mut Ctx) {
         while budget > 0 {
             budget -= 1;
             turn += 1;
+            if reassert_at == Some(turn) {
+                let before = (vmcanon::core_dump(&xs.verif_dump()), xs.verif_dump().reverse_log_len);
+                xs.set_recording_enabled(true);
+                let after = (vmcanon::core_dump(&xs.verif_dump()), xs.verif_dump().reverse_log_len);
+                ctx.check(before == after, || format!("C02 set_recording_enabled(true) again after {} steps/rewinds of `{}`", turn - 1, src), || format!("{:?}", before), || format!("{:?}", after));
+            }
             if reject_at == Some(turn) && clean {
                 // (the instruction meter keeps what a rejected source's meta blocks executed — C14 — and is not compared)
                 let before = vmcanon::core_dump(&xs.verif_dump());
@@ -168,6 +234,6 @@ pub fn run(ctx: &mut Ctx) {
             }
         }
         ctx.tag(&format!("steps:{}", (hist.len() - 1) / 10 * 10));
-        if !meta_prefix && reject_at.is_none() { ctx.case(format!("C02 vm {} view=full script={}", setup, script.join(",")), answers.join(" ; ")); }
+        if !meta_prefix && reject_at.is_none() && reassert_at.is_none() { ctx.case(format!("C02 vm {} view=full script={}", setup, script.join(",")), answers.join(" ; ")); }
     }
 }
